@@ -27,7 +27,7 @@ LEVEL = "fault_enumeration"
 RULE = (
     "base scenario = (TLS 1.2|1.3) x (EasyNetwork as client|server) x standard_compatible x 1-4 application records of seeded sizes x "
     "cyclic fragmentation/delay script x (peer|library closes first | library closes with unread application data) x (recv|recv_into) x (server side: wrap() directly | through AsyncTLSListener.serve); fault = FIN after exactly k bytes of the peer's cipher-text, "
-    "k swept over record boundaries +-3, record headers and seeded offsets (quick) or every offset (thorough); a case is one (scenario, k); "
+    "k swept over record boundaries +-3, record headers and seeded offsets (quick) or every offset (thorough; streams longer than 6000 cipher-text bytes: every offset of the handshake and within 64 bytes of a record boundary plus an even stride; every run is thinned to about 3e6 receive calls / link events); a case is one (scenario, k); "
     "non-trivial = the cut fired and the handshake had made progress"
 )
 COMPONENTS_REAL = [
@@ -43,6 +43,8 @@ ASSUMPTIONS = [
     "a FIN is the only truncation modelled (RST is an error on every path and is not the subject of this property)",
 ]
 BUDGET = {"quick": 45, "thorough": 540}
+EVERY_OFFSET_CALLS = 3_000_000  # thorough tier: bound on executions x receive calls of one run
+EVERY_OFFSET_MAX = 6000  # thorough tier: streams up to this many cipher-text bytes are cut at every offset
 
 
 _ROT = [bytes((r + j) & 0xFF for j in range(256)) for r in range(256)]
@@ -488,8 +490,33 @@ def _h_async(world: World, tier: str, engine: str = "aio") -> None:
     data_ends = app_ends[:n_app]
     cn_end = total if len(app_ends) > n_app else None  # None: the peer never sent a close_notify in the base run
     # ---------------- offsets
-    if tier == "thorough":
+    if tier == "thorough" and total <= EVERY_OFFSET_MAX:
         offsets = list(range(0, total + 1))
+    elif tier == "thorough":
+        # a long stream (several 16 KiB records): every offset within 64 bytes of a record boundary, every offset of the
+        # handshake, and an even stride over the rest, so that one run stays within minutes
+        s = set(range(0, min(total, hs_end + 64) + 1))
+        for e in ends:
+            s.update(range(max(0, e - 64), min(total, e + 64) + 1))
+        stride = -(-total // EVERY_OFFSET_MAX)
+        s.update(range(0, total + 1, stride))
+        offsets = sorted(s)
+        world.probe("every-offset-strided")
+    else:
+        offsets = []
+    if tier == "thorough":
+        # cost bound of one run: (number of executions) x (receive calls per execution); a 1-byte receive buffer on a 60 KiB
+        # stream makes every execution cost 60000 calls
+        calls = max(1, sum(sizes) // max(1, scn["bufsize"]), total // max(1, min(scn["p2l_sizes"])))  # + link events when the cipher-text drips in
+        max_exec = max(300, EVERY_OFFSET_CALLS // calls)
+        if len(offsets) > max_exec:
+            keep = set()
+            for e in [0, hs_end] + ends:
+                keep.update(range(max(0, e - 3), min(total, e + 5) + 1))
+            stride = -(-len(offsets) // max_exec)
+            keep.update(offsets[::stride])
+            offsets = sorted(k for k in keep if 0 <= k <= total)
+            world.probe("every-offset-thinned-for-cost")
     else:
         s = set()
         for e in [0] + ends:
@@ -633,8 +660,8 @@ def evidence_extra(merged: dict) -> dict:
 HARNESSES = [
     Harness("aio-close-while-writing", _h_close_while_writing, weight=1, wall_limit=120.0),
     Harness("sync-quick", lambda w: _h_async(w, "quick", "sync"), tiers=("quick",), wall_limit=120.0),
-    Harness("sync-every-offset", lambda w: _h_async(w, "thorough", "sync"), tiers=("thorough",), wall_limit=600.0),
+    Harness("sync-every-offset", lambda w: _h_async(w, "thorough", "sync"), tiers=("thorough",), wall_limit=900.0),
     Harness("aio-quick", lambda w: _h_async(w, "quick"), tiers=("quick",), wall_limit=120.0),
-    Harness("aio-every-offset", lambda w: _h_async(w, "thorough"), tiers=("thorough",), wall_limit=600.0),
+    Harness("aio-every-offset", lambda w: _h_async(w, "thorough"), tiers=("thorough",), wall_limit=900.0),
     Harness("aio-boundaries", lambda w: _h_async(w, "quick"), tiers=("thorough",), wall_limit=120.0),
 ]
